@@ -327,6 +327,25 @@ def w_cli(ctx, wid, seed):
         if r.abnormal or r.rc != 0 or r.out.strip() != b'01':
             ctx.violations.append(dict(campaign='cli', why='--pretend-valid=%s: checking the listed pair must succeed (stack 01), got rc=%s out=%r err=%r' % (text, r.rc, r.out[-60:], r.err[-160:]), case=dict(list=text), refails=3))
             return
+    # every pair of a longer list counts (first, middle, last), with the long option, the short option -P (attached and as a separate argument)
+    pairs = [('a1a1', '02' + 'aa' * 32), ('b2b2b2', '03' + 'bb' * 32), ('c3', '02' + 'cc' * 32), ('d4d4', 'dd' * 32)]
+    text = ','.join('%s:%s' % p for p in pairs)
+    for form in (['--pretend-valid=' + text], ['-P' + text], ['-P', text]):
+        for i, (s_, k_) in enumerate(pairs):
+            for other in (False, True):
+                # the listed pair, and the same signature with the NEXT pair's key (not listed together: must not be accepted)
+                key = pairs[(i + 1) % len(pairs)][1] if other else k_
+                script = '[0x%s 0x%s OP_CHECKSIG]' % (s_, key)
+                r = cli.run(exe, form + ['--modify-flags=-CONST_SCRIPTCODE,-NULLFAIL,-STRICTENC,-DERSIG,-LOW_S,-WITNESS_PUBKEYTYPE'], stdin=script.encode() + b'\n')
+                ctx.case('cli-multi:%s:%d:%d' % (form[0][:3], i, other), True, dict(form=form[0][:16], pair=i, other_key=other), 'cli-list-multi')
+                if r.timed_out:
+                    ctx.inconclusive += 1
+                    continue
+                want = b'' if other else b'01'
+                if r.abnormal or r.rc != 0 or r.out.strip() != want:
+                    ctx.violations.append(dict(campaign='cli', why='%s with %d pairs: checking signature %d against %s must give the stack %r, got rc=%s out=%r err=%r' % (
+                        form[0][:16], len(pairs), i, 'the key of another pair' if other else 'its own key', want, r.rc, r.out[-60:], r.err[-160:]), case=dict(list=text, form=form[0][:3], pair=i, other=other), refails=3))
+                    return
     for text in BAD_LISTS:
         r = cli.run(exe, ['--pretend-valid=' + text], stdin=b'0x51\n')
         ctx.case('cli-bad:' + text, True, dict(list=text, rc=r.rc), 'cli-malformed')
